@@ -97,6 +97,15 @@ TraceNext ==
        \/ /\ e.ev = "Final"
           /\ fails' = fails \cup Clauses(bp, st, e)
           /\ UNCHANGED vars
+       \/ /\ e.ev = "Compare"      \* two real builds of the same blueprint compared with each other (C08, C18)
+          /\ fails' = fails
+                \cup (IF e.required /\ e.decided /\ ~(e.same_vars /\ e.same_series) THEN {e.clause} ELSE {})
+                \cup (IF e.required /\ ~e.both_built THEN {e.clause} ELSE {})
+                \cup (IF e.kind = "order" /\ e.decided /\
+                         ((NormSt(RunAll(LookupBp(e.name), e.decl)) = NormSt(RunAll(LookupBp(e.name), CanonOrder(LookupBp(e.name)))))
+                            # (e.same_vars /\ e.same_series))
+                      THEN {"drift_order_equivalence"} ELSE {})
+          /\ UNCHANGED vars
        \/ /\ e.ev = "Undecided"      \* the exact oracle could not decide this model: no statement
           /\ fails' = fails \cup {"undecided_" \o e.why}
           /\ UNCHANGED vars
